@@ -19,7 +19,7 @@ META = {
         "quick": {"evaluations": 20000, "distinct_nontrivial": 3000, "tables": {"dtype/float32": 3000, "dtype/complex64": 3000, "dtype/complex128": 3000, "zero-creation/fuse-insert": 300, "zero-creation/fuse-concat": 300, "zero-creation/to_dense": 300, "zero-creation/fill_missing_blocks": 300, "zero-creation/fused-contraction": 200, "twin-compared": 8000, "mixed-contraction/terms>=32": 400, "twin-compared/mixed-blocks": 10000, "large/complex64:zero-imaginary-part": 100, "large/complex128:zero-imaginary-part": 100}},
         "thorough": {"evaluations": 500000, "distinct_nontrivial": 60000},
     },
-    "wall": {"quick": 300, "thorough": 1700},
+    "wall": {"quick": 900, "thorough": 1700},
 }
 
 REAL = {"float32": "float32", "float64": "float64", "complex64": "float32", "complex128": "float64"}
